@@ -62,6 +62,9 @@ package atree
 //@ pred sameADS(a *ArrayDataSlab) = a.elements == old(a.elements) && a.header == old(a.header) && a.next == old(a.next) &&
 //@      a.inlined == old(a.inlined) && a.extraData == old(a.extraData)
 
+//@ # slabs other than the one stored by this operation (and the value's own root) stay where they are
+//@ pred stoFrameADS(a *ArrayDataSlab, vr ref) = forall id SlabID :: old(sto[id]) != nil && old(sto[id]) != vr && id != old(a.header.slabID) ==> sto[id] == old(sto[id])
+
 //@ func (a *ArrayDataSlab) Set(storage, address, index, value) (prev, err)  serves C01 C03 C05 C06 C18
 //@   requires wfADS(a) && storage != nil && value != nil && a.header.size <= maxThreshold
 //@   assume valueRoot(value) != a because "frame assumption F: the value being stored is not the container that owns slab a"
@@ -69,7 +72,9 @@ package atree
 //@   ensures[C01] err == nil ==> index < len(old(a.elements)) && prev == old(a.elements)[index] && len(a.elements) == len(old(a.elements)) &&
 //@        (forall k :: 0 <= k && k < len(a.elements) && k != index ==> a.elements[k] == old(a.elements)[k])
 //@   ensures[C05] err == nil ==> bs(a.elements[index]) <= maxInlineArrayElementSize
-//@   ensures[C06] err == nil ==> wfADS(a) && a.header.size <= maxThreshold + maxInlineArrayElementSize
+//@   ensures[C06] err == nil ==> wfADS(a) && a.header.size <= maxThreshold + maxInlineArrayElementSize && a.header.slabID == old(a.header.slabID)
+//@   ensures[C05] err == nil && old(elemsFit(a)) ==> elemsFit(a)
+//@   ensures[C09] stoFrameADS(a, valueRoot(value))
 //@   ensures[C03] err == nil && !a.inlined ==> has(stored, a) && sto[a.header.slabID] == a
 //@   ensures[C18] err != nil ==> categorised(err)
 //@   modifies a.elements, a.header, ghost.sto, ghost.stored, ghost.touched, alloc, as(valueRoot(value), *ArrayDataSlab).header, as(valueRoot(value), *ArrayDataSlab).inlined, as(valueRoot(value), *MapDataSlab).header, as(valueRoot(value), *MapDataSlab).inlined
@@ -83,7 +88,9 @@ package atree
 //@        (forall k :: 0 <= k && k < index ==> a.elements[k] == old(a.elements)[k]) &&
 //@        (forall k :: index < k && k < len(a.elements) ==> a.elements[k] == old(a.elements)[k-1])
 //@   ensures[C05] err == nil ==> bs(a.elements[index]) <= maxInlineArrayElementSize
-//@   ensures[C06] err == nil ==> wfADS(a) && a.header.size == old(a.header.size) + bs(a.elements[index])
+//@   ensures[C06] err == nil ==> wfADS(a) && a.header.size == old(a.header.size) + bs(a.elements[index]) && a.header.slabID == old(a.header.slabID)
+//@   ensures[C05] err == nil && old(elemsFit(a)) ==> elemsFit(a)
+//@   ensures[C09] stoFrameADS(a, valueRoot(value))
 //@   ensures[C03] err == nil && !a.inlined ==> has(stored, a) && sto[a.header.slabID] == a
 //@   ensures[C18] err != nil ==> categorised(err)
 //@   modifies a.elements, a.header, ghost.sto, ghost.stored, ghost.touched, alloc, as(valueRoot(value), *ArrayDataSlab).header, as(valueRoot(value), *ArrayDataSlab).inlined, as(valueRoot(value), *MapDataSlab).header, as(valueRoot(value), *MapDataSlab).inlined
@@ -94,7 +101,9 @@ package atree
 //@   ensures[C01] err == nil ==> index < len(old(a.elements)) && v == old(a.elements)[index] && len(a.elements) == len(old(a.elements)) - 1 &&
 //@        (forall k :: 0 <= k && k < index ==> a.elements[k] == old(a.elements)[k]) &&
 //@        (forall k :: index <= k && k < len(a.elements) ==> a.elements[k] == old(a.elements)[k+1])
-//@   ensures[C06] err == nil ==> wfADS(a) && a.header.size == old(a.header.size) - bs(v)
+//@   ensures[C06] err == nil ==> wfADS(a) && a.header.size == old(a.header.size) - bs(v) && a.header.slabID == old(a.header.slabID)
+//@   ensures[C05] err == nil && old(elemsFit(a)) ==> elemsFit(a)
+//@   ensures[C09] stoFrameADS(a, nil)
 //@   ensures[C03] err == nil && !a.inlined ==> has(stored, a) && sto[a.header.slabID] == a
 //@   ensures[C18] err != nil ==> categorised(err)
 //@   modifies a.elements, a.header, ghost.sto, ghost.stored, ghost.touched, alloc
